@@ -117,6 +117,11 @@ struct DenseBox : DenseBase {
         if (w[3] == "copy") {
             set_type b{s()};        // copy constructor
             set_type c;
+            // the assignment target already has chunks of its own, some of them in places where
+            // the source has none: after `c = b` nothing of them may be left (seed C15-4)
+            for (uint64_t k = 0; k < 5; ++k) {
+                c.set(static_cast<T>((k << (CB + 3)) + 1 + k));
+            }
             c = b;                  // copy assignment
             using std::swap;
             swap(s(), c);           // continue with the copy, the original dies here
